@@ -141,7 +141,8 @@ impl Part for C01 {
         let nt = c.suite.aead.nt();
         let shapes: Vec<(usize, usize)> = match &c.seq {
             Seq::Short(s) => s.clone(),
-            Seq::Dense { n } => (0..=*n).map(|l| (l, (l * 5 + 1) % 300)).collect(),
+            // every plaintext length 0..=n (aad lengths walking through all residues mod 307), then every AAD length 0..=n
+            Seq::Dense { n } => (0..=*n).map(|l| (l, (l * 7 + 1) % 307)).chain((0..=*n).map(|l| (l % 4, l))).collect(),
             Seq::Grid { pt_lens, aad_lens } => {
                 let mut s = vec![];
                 for &p in pt_lens {
